@@ -1,7 +1,7 @@
 (* C07 — property theorems only. *)
 From Coq Require Import MSets.MSetPositive FSets.FMapPositive.
 From SwayV Require Import Base.Util Asm.Model Asm.Erase Asm.Delete Asm.Inplace C08.Spec C08.Model
-  C07.Model C07.Spec C07.Proofs C07.ProofsInplace C07.ProofsDce C07.ProofsCfg.
+  C07.Model C07.Spec C07.Proofs C07.ProofsInplace C07.ProofsDce C07.ProofsCfg Vm.Alu C07.CpModel C07.CpProofs C07.CpStep.
 Local Open Scope N_scope.
 
 (* liveness_analysis (model): the table it returns contains every register that is read before
@@ -141,4 +141,56 @@ Proof. vm_compute. reflexivity. Qed.
 Example C07_example_seqjump :
   remove_sequential_jumps (select [false;false;true;false;false;true;true] ex7) =
   [NOOP_OP; mkOp [] [] [] true (KLabel 0); mkOp [1000] [] [] true (KOther 1 [OReg 1000])].
+Proof. vm_compute. reflexivity. Qed.
+
+(* ---- constant_propagate: per-run validator (C07/CpModel.v) ----
+   Full statement wanted (C07_cp_validator_sound): cp_check before after = [] -> both programs run
+   identically on the interpreted-ALU machine from every entry state.  Proved: every justification
+   the validator uses (folding, identities, commutation), and that an accepted POSITION executes
+   identically in both programs whenever the known-value map holds of the state.  NOT proved: that
+   the map the walk threads through the program (transfer_kv, reset at jump-target labels) holds at
+   every position reached (kill/kset soundness along the walk). *)
+
+(* (a) a folded constant is what the VM computes under every flag setting: no trap, $of = $err = 0 *)
+Theorem C07_cp_fold_sound : forall op l r c, fold_const op l r = Some c ->
+  forall fl, exec64 fl op l r = Val (alu_set c).
+Proof. exact fold_const_sound. Qed.
+Print Assumptions C07_cp_fold_sound.
+
+(* (c) each algebraic identity holds for EVERY word value of the unknown operand and every flag setting *)
+Theorem C07_cp_identity_sound : forall op x y v, identity op x y = Some v ->
+  forall rf fl, bounded rf -> sden rf x < 2 ^ 64 -> sden rf y < 2 ^ 64 ->
+  exec64 fl op (sden rf x) (sden rf y) = Val (alu_set (sden rf v)).
+Proof. exact identity_sound. Qed.
+Print Assumptions C07_cp_identity_sound.
+
+(* (b) immediate forms of commutative ops may swap their operands *)
+Theorem C07_cp_commute : forall op x y fl, is_commutative op = true -> exec64 fl op x y = exec64 fl op y x.
+Proof. exact exec64_comm. Qed.
+Print Assumptions C07_cp_commute.
+
+(* an accepted position: under the known-value invariant both ops take the same step from the same
+   state, for every uninterpreted semantics of the non-ALU ops (uses functional extensionality for
+   register files) *)
+Theorem C07_cp_position_sound : forall M semA call_sem lab kv b a (st : state M),
+  holds kv (rf st) -> bounded (rf st) ->
+  no_zero_one_defs a = true -> no_zero_one_defs b = true ->
+  form_eqb kv (nf kv b) (nf kv a) = true ->
+  opstep M semA call_sem lab b st = opstep M semA call_sem lab a st.
+Proof. exact cp_position_sound. Qed.
+Print Assumptions C07_cp_position_sound.
+
+(* Non-vacuity and the seeded defect: `movi r 64; sll d $one r` may become `movi d 0` (what the VM
+   yields for a shift by 64) but not `movi d 1` (u64::wrapping_shl). *)
+Definition cp_before : list op :=
+  [ mkOp [] [1000] [R_OF; R_ERR] false (KOther 6 [OReg 1000; OImm 64]);
+    mkOp [1000; 1] [1001] [R_OF; R_ERR] false (KOther 39 [OReg 1001; OReg 1; OReg 1000]);
+    mkOp [1001] [] [] true (KOther 1 [OReg 1001]) ].
+Definition cp_after (c : N) : list op :=
+  [ mkOp [] [1000] [R_OF; R_ERR] false (KOther 6 [OReg 1000; OImm 64]);
+    mkOp [] [1001] [R_OF; R_ERR] false (KOther 6 [OReg 1001; OImm c]);
+    mkOp [1001] [] [] true (KOther 1 [OReg 1001]) ].
+Example C07_cp_accepts_vm_value : cp_check cp_before (cp_after 0) = [].
+Proof. vm_compute. reflexivity. Qed.
+Example C07_cp_rejects_wrapping_shift : cp_check cp_before (cp_after 1) = [1].
 Proof. vm_compute. reflexivity. Qed.
